@@ -25,7 +25,28 @@ class Program:
         self.graph = doc.get("graph")
         self._sites = None
         self.inlined_helpers = {}
+        self.lowered_closures = {}
+        self.orig_fns = self.fns
+        self._lower_closures()
         self._look_through_new_helpers()
+
+    def _lower_closures(self):
+        """closure-taking Option/Result combinators become explicit matches, directly called closures become part of the calling body
+        (lower.py): one form for the rules, whichever way the source spells it"""
+        import os
+        if os.environ.get("VERIF_NO_LOWER"):
+            return
+        import lower
+        # the bodies as written stay available (orig): a rule that reasons about a local closure as a unit, and about its call sites
+        # by their results, is still entitled to that modular view
+        self.orig_fns = dict(self.fns)
+        spliced, kept = lower.lower_program(self, _remap_places, lambda j: Fn(self, j))
+        live = lower.closure_uses(self) | kept
+        for p in sorted(spliced):
+            if p not in live and p in self.fns:
+                self.lowered_closures[p] = True
+                del self.fns[p]
+        self._sites = None
 
     def _look_through_new_helpers(self):
         """Extracting a piece of a function into a private helper that is called from that one place does not change behaviour, so the
